@@ -22,6 +22,23 @@ def tmpdir():
     return _TMP[pid]
 
 
+class StubSigner(object):
+    """Deterministic signer: the device model can tell which key signed which token."""
+
+    def __init__(self, kid, pub_as_bytes=False):
+        self.kid = kid
+        self.pub_as_bytes = pub_as_bytes
+        self.signed = []
+
+    def Sign(self, data):
+        self.signed.append(bytes(data))
+        return b'SIG[%d]:' % self.kid + bytes(data)
+
+    def GetPublicKey(self):
+        pk = 'PUBKEY-%d user@host' % self.kid
+        return pk.encode() if self.pub_as_bytes else pk
+
+
 class Session(object):
     def __init__(self, ch, cfg, twin='sync', default_timeout=None, banner=b'verif', explore_io=False, **envkw):
         self.env = simenv.Env(ch, cfg, **envkw)
@@ -80,6 +97,11 @@ class Session(object):
         if name in ('root', 'reboot', 'close'):
             return self.run(lambda d: getattr(d, name)(**kw))
         if name == 'connect':
+            sim = kw.pop('_sim', None)
+            self.env.session_over = dict(sim) if sim else None
+            keys = kw.pop('_keys', None)
+            if keys is not None:
+                kw['rsa_keys'] = [StubSigner(k) for k in keys]
             return self.run(lambda d: d.connect(**kw))
         if name == 'streaming_shell':
             if sync:
@@ -132,6 +154,9 @@ class Session(object):
             path = os.path.join(tmpdir(), 'pulled.bin')
             if os.path.exists(path):
                 os.unlink(path)
+            if dest == 'path':
+                with open(path, 'wb') as f:       # a pre-existing destination must be replaced, not appended to or kept
+                    f.write(b'STALE-CONTENT-' * 8)
             r = self.run(lambda d: d.pull(device_path, path, **kw))
             self.pulled = open(path, 'rb').read() if os.path.exists(path) else None
             if os.path.exists(path):
